@@ -61,6 +61,9 @@ def printf_text(rng, fmt):
     if fmt.endswith("d") or rng.random() < 0.3:
         v = rng.choice([0, 1, -1, 7, 42, -300, 1000, 65535])
         return str(v), float(v)
+    if rng.random() < 0.12:
+        # signed zeros: equal as numbers, different as rendered text
+        return rng.choice([("-0.0", -0.0), ("0.0", 0.0), ("-0", -0.0)])
     v = rng.choice([0.5, 1.25, -2.75, 3.14159, 100.001, -0.001, 12345.678])
     return repr(v), v
 
@@ -71,10 +74,10 @@ def client_number(rng, fmt):
 
 def driver_number(rng, fmt):
     if is_sexa(fmt):
-        return rng.choice([0.0, 0.5, 1.25, 12.5, 23.999, 100.75, 359.5, 45.0, -0.5, -0.25, -12.5, -89.75])
+        return rng.choice([0.0, -0.0, 0.5, 1.25, 12.5, 23.999, 100.75, 359.5, 45.0, -0.5, -0.25, -12.5, -89.75])
     if fmt.endswith("d"):
         return rng.choice([0, 1, -5, 42, 1000, 7])
-    return rng.choice([0.0, 1.5, -2.25, 3.14159, 1e3, 0.001, 99.99, -0.5])
+    return rng.choice([0.0, -0.0, 0.0, -0.0, 1.5, -2.25, 3.14159, 1e3, 0.001, 99.99, -0.5])
 
 
 def driver_value(rng, kind, espec):
